@@ -7,5 +7,6 @@ INVARIANT NoFalseSuccess
 INVARIANT PartialIsFlagged
 INVARIANT Documented
 INVARIANT MirrorNoFault
+INVARIANT Drained
 PROPERTY Terminates
 CHECK_DEADLOCK FALSE
